@@ -75,7 +75,7 @@ Lemma emits_tr_round : forall c t, t_emits (tr_round c t) = t_emits t. Proof. re
 
 Section ReactProofs.
   Variable tn : list call -> res (list tmsg).
-  Variable tns : list call -> res (list string * list emitted).
+  Variable tns : list call -> res (list string * list emitted * option N).
   Variable rd : string -> bool.
   Variable rd_nonempty : bool.
   Variable modifier : list msg -> list msg.
@@ -148,8 +148,11 @@ Section ReactProofs.
   (* the tools node's two forms agree on the calls of a reply: in Stream mode what the consumers
      of its output stream obtain - the position-wise concatenation of the frames for the chat node,
      the frame-by-frame filter of direct_return at the return-directly position - is what Invoke
-     returns resp. the message at that position; and the two forms fail alike.  Generate mode uses
-     Invoke itself.  (That compose.ToolsNode satisfies this is property C17:
+     returns resp. the message at that position; and the two forms fail alike, when the tools
+     are called (a tool whose stream fails after it was opened is outside: streams are lazy, the
+     failure reaches the agent one node later - or its caller -, so a run at its step limit ends
+     with the step-limit error in Stream mode and with the tool's error in Generate mode; both
+     fail).  Generate mode uses Invoke itself.  (That compose.ToolsNode satisfies this is property C17:
      tools_node_stream_exact in Proofs/ReactStream.v derives it from C17's theorems for the model of
      the tools node that the correspondence check runs.) *)
   Definition tools_exact (md : mode) (calls : list call) : Prop :=
@@ -158,12 +161,12 @@ Section ReactProofs.
     | Stream =>
         match tn calls with
         | Ok results =>
-            exists ids em, tns calls = Ok (ids, em)
-              /\ tout_results (TFrames ids em) = Ok results
-              /\ forall i, rd_index_of calls = Some i -> tout_direct i (TFrames ids em) = nth_error results i
+            exists ids em, tns calls = Ok (ids, em, None)
+              /\ tout_results (TFrames ids em None) = Ok results
+              /\ forall i, rd_index_of calls = Some i -> tout_direct i (TFrames ids em None) = Ok (nth_error results i)
         | r => match tns calls with
                | Ok _ => False
-               | r' => @tools_err (list tmsg) r = @tools_err (list string * list emitted) r'
+               | r' => @tools_err (list tmsg) r = @tools_err (list string * list emitted * option N) r'
                end
         end
     end.
@@ -177,7 +180,7 @@ Section ReactProofs.
     match tn calls with
     | Ok results =>
         exists o, tools_out tn tns md calls = Ok o /\ tout_results o = Ok results
-                  /\ forall i, rd_index_of calls = Some i -> tout_direct i o = nth_error results i
+                  /\ forall i, rd_index_of calls = Some i -> tout_direct i o = Ok (nth_error results i)
     | r => match tools_out tn tns md calls with
            | Ok _ => False
            | r' => @tools_err tout r' = @tools_err (list tmsg) r
@@ -188,7 +191,7 @@ Section ReactProofs.
     - destruct (tn calls) as [results|e|]; simpl; auto.
       exists (TWhole results). repeat split; auto.
     - destruct (tn calls) as [results|e|].
-      + destruct H as [ids [em [H1 [H2 H3]]]]. exists (TFrames ids em). rewrite H1. auto.
+      + destruct H as [ids [em [H1 [H2 H3]]]]. exists (TFrames ids em None). rewrite H1. auto.
       + destruct (tns calls) as [p|e'|]; simpl in *; auto.
       + destruct (tns calls) as [p|e'|]; simpl in *; auto.
   Qed.
@@ -196,7 +199,7 @@ Section ReactProofs.
   Lemma loop_refines : forall checker md script,
     Forall (reply_exact checker md) script ->
     forall fuel h0 rid input,
-      agent_loop checker md fuel script (TChat input) (mkState h0 rid)
+      agent_loop checker md fuel script (TChat (Ok input)) (mkState h0 rid)
       = react_spec script fuel (h0 ++ input).
   Proof.
     intros checker md. induction script as [|s script IH]; intros HF fuel h0 rid input.
@@ -235,7 +238,7 @@ Section ReactProofs.
       assert (Hne' : calls <> []) by (subst; discriminate).
       pose proof (tools_round md calls (Ht Hne')) as Hr.
       destruct (tn calls) as [results|e|].
-      + destruct Hr as [o [Ho [Hres Hdir]]]. rewrite Ho, Hres. f_equal.
+      + destruct Hr as [o [Ho [Hres Hdir]]]. rewrite Ho, Hres. cbn [res_map]. f_equal.
         unfold rd_index_of in Hdir.
         destruct rd_nonempty.
         * destruct (rd_call_index rd calls) as [i|] eqn:E.
@@ -486,9 +489,10 @@ Definition w_script : list step :=
 Definition w_tn (calls : list call) : res (list tmsg) :=
   Ok (map (fun c => (c_name c ++ "(" ++ c_args c ++ ")", c_id c)) calls).
 (* the same tools streamed: one frame per call, in call order *)
-Definition w_tns (calls : list call) : res (list string * list emitted) :=
+Definition w_tns (calls : list call) : res (list string * list emitted * option N) :=
   Ok (map c_id calls,
-      map (fun p => (fst p, c_name (snd p) ++ "(" ++ c_args (snd p) ++ ")")) (combine (seq 0 (List.length calls)) calls)).
+      map (fun p => (fst p, c_name (snd p) ++ "(" ++ c_args (snd p) ++ ")")) (combine (seq 0 (List.length calls)) calls),
+      None).
 Definition w_input : list msg := [mkMsg RUser "what is 6*7?" [] ""].
 Definition w_run (checker : list chunk -> bool) (md : mode) : trace :=
   agent_run w_tn w_tns (fun _ => false) false (fun h => h) (fun _ => true) checker md 12 w_script w_input.
